@@ -566,10 +566,14 @@ package eval
 //@ axiom [strings] (forall ((a (Array Int Int)) (o Int) (n Int)) (! (= (= (strOfArr a o n) "") (<= n 0)) :pattern ((strOfArr a o n))))
 //@ axiom [strings] (forall ((a (Array Int Int)) (o Int) (n Int)) (! (=> (>= n 1) (= (hasPrefix (strOfArr a o n) #quote) (= (select a o) 34))) :pattern ((hasPrefix (strOfArr a o n) #quote))))
 
+// a comment runs from its semicolon to the next LINE FEED (or the end of the input): nothing else ends it, so no other
+// character inside a comment can turn the rest of the line into tokens
 //@ func parser.lex.lexComment C06 C14
 //@   inline
 //@   loop 1
 //@     invariant [cursor] (and (<= 0 $start) (<= $start $i) (<= $i (len $A)))
+//@     invariant [no-line-feed-inside] (forall ((k Int)) (! (=> (and (<= $start k) (< k $i)) (not (= (idx $A k) 10))) :pattern ((idx $A k))))
+//@     exit [comment-ends-only-at-a-line-feed] (or (>= $i (len $A)) (= (idx $A $i) 10))
 //@ func parser.lex.lexString C06 C14
 //@   inline
 //@   loop 1
